@@ -106,6 +106,30 @@ def shift_chains():
                     'std::vector<vf::X> cs; for (int c = 0; c <= %d; ++c) cs.push_back(vf::X::from_i(c)); std::vector<std::vector<vf::X>> ls{c11::leaves<T0>(rng, NR), cs}; '
                     'c11::run_chain("%s", c11::Tags{%d, %d}, ls, [&](vf::X const* x) { %s }); }') % (t, desc, d + 2, desc, r, o, body)
             out.append((desc, stmt))
+    # ++ / -- in all four forms on static_integer (every leaf incl. the limits)
+    i = 0
+    for d, n in [(3, 2), (7, 0), (15, 1), (31, 2), (63, 2), (20, 2), (8, 1)]:
+        for r, o in ((1, 0), (1, 1), (1, 2), (0, i % 3)):
+            i += 1
+            t = typ("si", d, 0, r, o, n)
+            desc = "incdec si<%d> %s,%s,%s" % (d, RNAME[r], ONAME[o], NARROW[n][1])
+            body = "auto v0 = c11::deep<T0>(x[0]); int f = (int)x[1].mag128(); auto r0 = c11::incdec(v0, f); auto r1 = c11::incdec(r0, f); (void)r1;"
+            stmt = ('{ using T0 = %s; vf::Rng rng(vf::mix(vf::env_seed(), vf::hash_str("%s"))); long NR = vf::env_long("VERIF_NRAND", 12); '
+                    'std::vector<vf::X> fs; for (int f = 0; f < 4; ++f) fs.push_back(vf::X::from_i(f)); std::vector<std::vector<vf::X>> ls{c11::leaves<T0>(rng, NR), fs}; '
+                    'c11::run_chain("%s", c11::Tags{%d, %d}, ls, [&](vf::X const* x) { %s }); }') % (t, desc, desc, r, o, body)
+            out.append((desc, stmt))
+    # construction from built-in integers (then unary minus and x + x)
+    i = 0
+    for kind, d, e, n, bt, bn in [("si", 31, 0, 2, "int", "i32"), ("si", 63, 0, 2, "long", "i64"), ("si", 7, 0, 0, "signed char", "i8"), ("si", 15, 0, 1, "short", "i16"), ("si", 20, 0, 2, "int", "i32"),
+                                   ("sn", 8, 2, 2, "int", "i32"), ("sn", 8, 2, 2, "short", "i16"), ("sn", 20, -4, 2, "long", "i64"), ("sn", 31, 1, 2, "int", "i32"), ("sn", 15, -3, 1, "unsigned short", "u16"), ("sn", 12, 3, 2, "unsigned", "u32")]:
+        for r in (1, 2, 3, 0):
+            o = i % 3
+            i += 1
+            if i % 2 and d not in (31, 8):
+                continue
+            t = typ(kind, d, e, r, o, n)
+            desc = "ctor %s<%d,%d> %s,%s,%s from %s" % (kind, d, e, RNAME[r], ONAME[o], NARROW[n][1], bn)
+            out.append((desc, 'c11::ctor_kernel<%s, %s>("%s", c11::Tags{%d, %d});' % (t, bt, desc, r, o)))
     # two leaves of the same full-width type, divided both ways (every pairing of adjacent limits is enumerated by run_chain)
     i = 0
     for kind, d, e, n in [("si", 31, 0, 2), ("si", 63, 0, 2), ("si", 15, 0, 1), ("si", 7, 0, 0), ("sn", 31, -8, 2), ("sn", 63, -20, 2)]:
